@@ -84,9 +84,11 @@ class Func:
         if not isinstance(node, ast.AST):
             return norm(node)
         loc = self.local_names
-        if not loc:
+        prog = getattr(self.module, "program", None)
+        if not loc and prog is None:
             return norm(node)
         cp = copy.deepcopy(node)
+        cp = _FoldScalars(self).visit(cp) if prog is not None else cp
         names = {}
         for n in _preorder(cp):
             if isinstance(n, ast.Name) and n.id in loc:
@@ -197,13 +199,13 @@ class Class:
 
 
 class Module:
-    def __init__(self, name, path, relpath, src):
+    def __init__(self, name, path, relpath, src, tree=None):
         self.name = name
         self.path = path
         self.relpath = relpath
         self.src = src
         self.lines = src.split("\n")
-        self.tree = ast.parse(src, filename=path)
+        self.tree = tree if tree is not None else ast.parse(src, filename=path)
         self.funcs = {}
         self.classes = {}
         self.consts = {}       # name -> ast expr (module-level single assignment)
@@ -252,6 +254,7 @@ class Program:
         if not os.path.isdir(self.pkgdir):
             raise AnalysisError("package directory not found: " + self.pkgdir)
         self.modules = {}
+        parsed = {}
         for dp, dn, fn in os.walk(self.pkgdir):
             dn[:] = sorted(d for d in dn if d != "__pycache__")
             for f in sorted(fn):
@@ -265,9 +268,17 @@ class Program:
                 with open(path, encoding="utf-8") as fh:
                     src = fh.read()
                 try:
-                    self.modules[mod] = Module(mod, path, rel, src)
+                    parsed[mod] = (path, rel, src, ast.parse(src, filename=path))
                 except SyntaxError as e:
                     raise AnalysisError("syntax error in %s: %s" % (rel, e))
+        # names that a refactoring replaced are mapped back to the reference names the rules' anchors use (sa/unrename.py)
+        from . import unrename
+        self.renames = unrename.compute({m: t[3] for m, t in parsed.items()}, PKG) if os.environ.get("SA_NO_UNRENAME") != "1" \
+            else unrename.Renames()
+        unrename.apply({m: t[3] for m, t in parsed.items()}, self.renames)
+        for mod, (path, rel, src, tree) in parsed.items():
+            self.modules[mod] = Module(mod, path, rel, src, tree)
+            self.modules[mod].program = self
         self._link_classes()
         self.funcs = {}
         for m in self.modules.values():
@@ -278,6 +289,7 @@ class Program:
                     self.funcs[f.qual + (".setter" if f.is_setter else "")] = f
         self.classes = {c.qual: c for m in self.modules.values() for c in m.classes.values()}
         self._check_unmodelled()
+        self._annotate_literals()
 
     # ------------------------------------------------------------------ names
     def resolve_name(self, module, name, _depth=0):
@@ -388,6 +400,36 @@ class Program:
             return ("ext", ast.unparse(expr))
         raise Unfoldable(ast.dump(expr)[:60])
 
+    def _annotate_literals(self):
+        """Every name that is a use of a module-level scalar constant carries the value (`_lit`): rules that look for a literal
+        ask lit(node) and so do not care whether the literal was given a name."""
+        for m in self.modules.values():
+            scopes = [(m.tree, set())]
+            for f in list(m.funcs.values()) + [g for c in m.classes.values() for g in list(c.methods.values()) + list(c.setters.values())]:
+                scopes.append((f.node, f.local_names | set(f.params) | {a.arg for a in f.node.args.kwonlyargs}))
+            for root, shadow in scopes:
+                it = ast.walk(root) if root is not m.tree else (n for st in m.tree.body if not isinstance(st, (ast.FunctionDef, ast.ClassDef))
+                                                                for n in ast.walk(st))
+                for n in it:
+                    if isinstance(n, ast.Name) and isinstance(n.ctx, ast.Load) and n.id not in shadow and not hasattr(n, "_lit"):
+                        v = self.lit(m, n)
+                        if v is not NOLIT:
+                            n._lit = v
+
+    def lit(self, module, node):
+        """Value of a scalar literal: a Constant, or a name that resolves to a module-level str / number / bool constant
+        (assigned once).  NOLIT otherwise.  Rules that look for a literal use this, so that naming the literal is not a change."""
+        if isinstance(node, ast.Constant):
+            return node.value
+        if isinstance(node, ast.Name):
+            try:
+                v = self.fold(module, node)
+            except Unfoldable:
+                return NOLIT
+            if isinstance(v, (str, int, float, bool)):
+                return v
+        return NOLIT
+
     def const(self, modname, name):
         """Folded module constant; vanished or unfoldable -> AnalysisError (fail closed)."""
         m = self.module(modname)
@@ -439,6 +481,44 @@ class Program:
 
 
 # ----------------------------------------------------------------- utilities
+NOLIT = object()
+
+
+def lit(node):
+    """Scalar value of a literal or of a use of a named module-level scalar constant (see Program._annotate_literals), including
+    a negated number; NOLIT otherwise."""
+    if isinstance(node, ast.Constant):
+        return node.value
+    if isinstance(node, ast.Name):
+        return getattr(node, "_lit", NOLIT)
+    if isinstance(node, ast.UnaryOp) and isinstance(node.op, ast.USub):
+        v = lit(node.operand)
+        if isinstance(v, (int, float)) and not isinstance(v, bool):
+            return -v
+    return NOLIT
+
+
+def is_lit(node, *values):
+    """node is a literal (or named scalar constant) equal to one of the values, with the same type."""
+    v = lit(node)
+    return v is not NOLIT and any(v == w and type(v) is type(w) for w in values)
+
+
+class _FoldScalars(ast.NodeTransformer):
+    """Names of module-level scalar constants print as their value in finding keys: extracting a literal into a named
+    constant (or renaming one) does not change the key of a finding."""
+    def __init__(self, func):
+        self.f = func
+        self.skip = func.local_names | set(func.params)
+
+    def visit_Name(self, n):
+        if isinstance(n.ctx, ast.Load) and n.id not in self.skip:
+            v = self.f.module.program.lit(self.f.module, n)
+            if v is not NOLIT:
+                return ast.copy_location(ast.Constant(v), n)
+        return n
+
+
 def _preorder(node):
     yield node
     for c in ast.iter_child_nodes(node):
